@@ -355,6 +355,11 @@ func runOrderFree(rr *RuleRun) {
 				rr.Violation(key+"/flag", pos, fmt.Sprintf("the loop ranges over a Go map, can leave early (break), and raises the flag %s on other iterations; %s: after an early exit the flag only tells which members were visited first, so the result depends on the iteration order", v, why))
 				return true
 			}
+			// (4) a slice filled in iteration order and returned without an unconditional sort
+			if nm, pos := unsortedAccumulation(c, info, body, rs); nm != "" {
+				rr.Violation(key+"/accumulate", pos, fmt.Sprintf("the loop ranges over a Go map and appends to %s in iteration order, and %s is returned on a path on which no sort of it is certain to have run: the order of the result changes from call to call", nm, nm))
+				return true
+			}
 			// (2) caller-supplied callbacks invoked once per iteration
 			params := map[types.Object]bool{}
 			if fd.Type != nil && fd.Type.Params != nil {
@@ -529,4 +534,74 @@ func orderSensitiveFlag(c *Ctx, info *types.Info, body *ast.BlockStmt, rs *ast.R
 		return true
 	})
 	return badName, badPos, why
+}
+
+
+// unsortedAccumulation: the loop appends to a slice declared outside it, that slice is a direct result of
+// a return statement, and no call sort.*(S, …) / slices.Sort*(S) dominates that return.
+func unsortedAccumulation(c *Ctx, info *types.Info, body *ast.BlockStmt, rs *ast.RangeStmt) (string, token.Pos) {
+	var accs []types.Object
+	inspectNoLit(rs.Body, func(n ast.Node) bool {
+		as, ok := n.(*ast.AssignStmt)
+		if !ok || len(as.Lhs) != 1 || len(as.Rhs) != 1 {
+			return true
+		}
+		call, ok := ast.Unparen(as.Rhs[0]).(*ast.CallExpr)
+		if !ok || !isBuiltin(info, call, "append") || len(call.Args) < 2 {
+			return true
+		}
+		o, _ := objOf(info, as.Lhs[0]).(*types.Var)
+		if o == nil || objOf(info, call.Args[0]) != o || (o.Pos() >= rs.Pos() && o.Pos() <= rs.End()) {
+			return true
+		}
+		accs = append(accs, o)
+		return true
+	})
+	if len(accs) == 0 {
+		return "", token.NoPos
+	}
+	g := c.CFG(body, info)
+	for _, o := range accs {
+		// error / string accumulations are out of scope (messages)
+		if sl, ok := o.Type().Underlying().(*types.Slice); ok {
+			if isErrorType(sl.Elem()) {
+				continue
+			}
+		}
+		var sorts []ast.Node
+		inspectNoLit(body, func(n ast.Node) bool {
+			call, ok := n.(*ast.CallExpr)
+			if !ok || len(call.Args) == 0 || objOf(info, call.Args[0]) != o {
+				return true
+			}
+			if f := callee(info, call); f != nil && f.Pkg() != nil && (f.Pkg().Path() == "sort" || f.Pkg().Path() == "slices") {
+				sorts = append(sorts, call)
+			}
+			return true
+		})
+		for _, ret := range g.Returns() {
+			if ret.Pos() < rs.End() {
+				continue
+			}
+			direct := false
+			for _, r := range ret.Results {
+				if objOf(info, r) == o {
+					direct = true
+				}
+			}
+			if !direct {
+				continue
+			}
+			sorted := false
+			for _, sc := range sorts {
+				if sc.Pos() > rs.End() && g.Dominates(sc, ret) {
+					sorted = true
+				}
+			}
+			if !sorted {
+				return o.Name(), ret.Pos()
+			}
+		}
+	}
+	return "", token.NoPos
 }
